@@ -119,6 +119,9 @@ func checkC06(c *Check) {
 		"lazily created check states are published only after their replay of earlier stages succeeded; the remote target refuses quarantined mail (C05.R8); the DMARC action switch is C07.R1."
 	c.notCover = "'exactly once per check' under all completion orders and de-duplication across blocks at run time (needs schedule exploration)."
 
+	c.Rule("L1", "check-runner locks: every mutex the package's functions take is released on every path to a return, and nothing unlocks a mutex it does not hold (immediate or deferred; function literals separately)", 3)
+	lockBalance(c, "L1", []string{pipelineRel}, nil)
+
 	// ---- R1
 	c.Rule("R1", "Body and BodyNonAtomic of the pipeline run the same ordered stage sequence", 1)
 	rb := c.need("R1", pipelineRel, "msgpipelineDelivery", "Body")
@@ -234,6 +237,53 @@ func checkC06(c *Check) {
 			}
 		})
 	}
+
+	// ---- R2b connection stage
+	c.Rule("R2b", "connection stage: every caller of MsgPipeline.RunEarlyChecks looks at the verdict and, when a check refused the connection, neither reports success nor goes on to authenticate", 2)
+	earlyPred := calling("~/" + pipelineRel + ".MsgPipeline.RunEarlyChecks")
+	p.AllFuncs(p.ServerPkgs(), func(fi *FuncInfo) {
+		if fi.Decl.Body == nil {
+			return
+		}
+		has := false
+		ast.Inspect(fi.Decl.Body, func(n ast.Node) bool {
+			if call, ok := n.(*ast.CallExpr); ok && earlyPred(fi.Info(), call) {
+				has = true
+			}
+			return !has
+		})
+		if !has {
+			return
+		}
+		r := c.CtxOf(fi)
+		sites := r.Calls(earlyPred)
+		info := r.Info
+		sig := fi.Obj.Type().(*types.Signature)
+		hasErr := sig.Results().Len() > 0 && isErrorType(sig.Results().At(sig.Results().Len()-1).Type())
+		for i, pt := range sites {
+			call := r.CallAt(pt, earlyPred)
+			key := refName(fi.Obj) + ":RunEarlyChecks" + itoa(i+1)
+			c.SawFunc(fi.Name())
+			eo := errVarAssigned(info, pt.Node(), call)
+			if eo == nil || !hasErr {
+				c.Hold("R2b", key, call.Pos(), false, "the verdict of the connection-stage checks is not looked at (or the caller cannot refuse)")
+				continue
+			}
+			bad := func(q Pt) bool {
+				if r.IsSuccessReturn(q) {
+					return true
+				}
+				for _, cc := range callsAt(q.Node()) {
+					if c14IsAuth(c, info, cc) {
+						return true
+					}
+				}
+				return false
+			}
+			path, f := r.F.ReachRefined(pt, eo, false, false, bad, nil)
+			c.Hold("R2b", key, call.Pos(), !f, "after a connection-stage check refused, the caller can still succeed or authenticate: "+r.F.Describe(path))
+		}
+	})
 
 	// ---- R3 merge semantics
 	c.Rule("R3", "runAndMergeResults: reject has its own once-guarded slot and is returned first after all checks finished; quarantine sets the merged flag; applyResults copies it to the message", 4)
